@@ -1509,9 +1509,15 @@ class ExtendedToOriginalDecorator:
         try:
             outcome = getattr(self.decorated, "addUnexpectedSuccess", None)
             if outcome is None:
+                # Report a failure instead.  The test may be a PlaceHolder or
+                # ErrorHolder, which has neither fail() nor a usable
+                # failureException.
+                failure_exception = (
+                    getattr(test, "failureException", None) or AssertionError
+                )
                 try:
-                    test.fail("")
-                except test.failureException:
+                    raise failure_exception("")
+                except failure_exception:
                     return self.addFailure(test, sys.exc_info())
             if details is not None:
                 try:
